@@ -193,20 +193,20 @@ Proof.
 Qed.
 
 (* ------------------------------------------------------------------------------------------ *)
-(* the canon instruction *)
+(* the canon instructions (canon, canon_map, canon_stream_map_scalar) *)
 
-Lemma exec_canon_unfold x p stream canon r h :
+Lemma exec_canon_unfold k tb x p stream r h :
   meet_canon_start cid cid_eqb (x_handler x) = Ok (r, h) ->
-  exec_canon x p stream canon =
+  exec_canon_generic k tb x p stream =
     let x0 := set_handler x h in
     match r with
-    | CanonMet _ (CanonExecuted c) => handle_canon_executed x0 p (v_name canon) c
+    | CanonMet _ (CanonExecuted c) => handle_canon_executed k x0 p c
     | CanonMet _ (CanonRequestSentBy sender) =>
         lift x0 (resolve_peer_id_to_string x0 p) (fun peer =>
           if negb (String.eqb (current_peer x0) peer) then
             let x1 := make_incomplete x0 in
             XOk (set_handler x1 (meet_canon_end cid (x_handler x1) (CanonRequestSentBy sender)))
-          else create_canon_first_time x0 stream (v_name canon) peer)
+          else create_canon_first_time k tb x0 stream peer)
     | CanonEmpty _ =>
         match resolve_peer_id_to_string x0 p with
         | PErr e => if is_joinable e then XOk (make_incomplete x0) else XErr e x0
@@ -216,66 +216,113 @@ Lemma exec_canon_unfold x p stream canon r h :
             if negb (String.eqb (current_peer x0) peer) then
               let x1 := set_next_peers (make_incomplete x0) (x_next_peers x0 ++ [peer]) in
               XOk (set_handler x1 (meet_canon_end cid (x_handler x1) (CanonRequestSentBy (current_peer x1))))
-            else create_canon_first_time x0 stream (v_name canon) peer
+            else create_canon_first_time k tb x0 stream peer
         end
     end.
-Proof. intros E. unfold exec_canon. rewrite E. reflexivity. Qed.
+Proof. intros E. unfold exec_canon_generic. rewrite E. reflexivity. Qed.
 
 (* peer resolution reads scalars, iterables and canon variables only *)
 Lemma resolve_peer_set_handler x h p : resolve_peer_id_to_string (set_handler x h) p = resolve_peer_id_to_string x p.
 Proof. destruct p; reflexivity. Qed.
-Lemma resolve_peer_with_streams x m p : resolve_peer_id_to_string (with_streams x m) p = resolve_peer_id_to_string x p.
+Lemma resolve_peer_with_tables x ms mm p : resolve_peer_id_to_string (with_tables x ms mm) p = resolve_peer_id_to_string x p.
 Proof. destruct p; reflexivity. Qed.
 
 Lemma tr_meet_canon_end x c : tr (set_handler x (meet_canon_end cid (x_handler x) c)) = tr x ++ [SCanon c].
 Proof. reflexivity. Qed.
 
-(* the epilog: set the canon variable, write Executed(c) *)
-Lemma canon_epilog_ok x name values t c y :
-  canon_epilog x name values t c = XOk y ->
-  canon_bound x y name {| cw_values := values; cw_tetraplet := t; cw_cid := c |} /\
+Lemma same_tables_refl x : same_tables x x.
+Proof. split; reflexivity. Qed.
+
+(* the epilogs: set the variable, write Executed(c) *)
+Lemma canon_epilog_ok k x values t c y :
+  canon_epilog k x values t c = XOk y ->
+  value_bound k x y values t c /\
   tr y = tr x ++ [SCanon (CanonExecuted c)] /\
-  x_ext y = x_ext x /\ x_cids y = x_cids x /\ x_tracker y = x_tracker x /\ x_next_peers y = x_next_peers x.
+  same_tables x y /\ x_cids y = x_cids x /\ x_tracker y = x_tracker x /\ x_next_peers y = x_next_peers x.
 Proof.
-  unfold canon_epilog, set_canon_value.
-  destruct (Scalars.set_value canon_wp (x_canons x) name _) as [[m b] | e] eqn:E; cbn [lift]; [| discriminate].
-  intros Hy. inversion Hy; subst. repeat split. exists b. exact E.
+  unfold canon_epilog. destruct k as [name | name | name].
+  - unfold set_canon_value.
+    destruct (Scalars.set_value canon_wp (x_canons x) name _) as [[m b] | e] eqn:E; cbn [lift]; [| discriminate].
+    intros Hy. inversion Hy; subst. repeat split. exists b. exact E.
+  - destruct (negb (kv_pairs_valid values)); [discriminate |]. unfold set_canon_map_value.
+    destruct (Scalars.set_value canon_map_wp (e_canon_maps (x_ext x)) name _) as [[m b] | e] eqn:E; cbn [lift]; [| discriminate].
+    intros Hy. inversion Hy; subst. repeat split. exists b. exact E.
+  - destruct values as [| v rest]; [discriminate |]. unfold set_scalar_value.
+    destruct (Scalars.set_value vagg (x_scalars x) name _) as [[m b] | e] eqn:E; cbn [lift]; [| discriminate].
+    intros Hy. inversion Hy; subst. repeat split. exists v, rest, b. split; [reflexivity | exact E].
 Qed.
 
-Lemma canon_epilog_ctx x name values t c y :
-  outcome_ctx (canon_epilog x name values t c) = Some y ->
-  x_ext y = x_ext x /\ x_cids y = x_cids x /\ x_tracker y = x_tracker x /\ x_next_peers y = x_next_peers x /\
+Lemma canon_epilog_ctx k x values t c y :
+  outcome_ctx (canon_epilog k x values t c) = Some y ->
+  same_tables x y /\ x_cids y = x_cids x /\ x_tracker y = x_tracker x /\ x_next_peers y = x_next_peers x /\
   (tr y = tr x \/ tr y = tr x ++ [SCanon (CanonExecuted c)]).
 Proof.
-  unfold canon_epilog, set_canon_value.
-  destruct (Scalars.set_value canon_wp (x_canons x) name _) as [[m b] | e]; cbn [lift outcome_ctx];
-    intros Hy; inversion Hy; subst; repeat split; [right | left]; reflexivity.
+  unfold canon_epilog. destruct k as [name | name | name].
+  - unfold set_canon_value.
+    destruct (Scalars.set_value canon_wp (x_canons x) name _) as [[m b] | e]; cbn [lift outcome_ctx];
+      intros Hy; inversion Hy; subst; repeat split; [right | left]; reflexivity.
+  - destruct (negb (kv_pairs_valid values)).
+    + cbn [outcome_ctx]. intros Hy; inversion Hy; subst. repeat split. left; reflexivity.
+    + unfold set_canon_map_value.
+      destruct (Scalars.set_value canon_map_wp (e_canon_maps (x_ext x)) name _) as [[m b] | e]; cbn [lift outcome_ctx];
+        intros Hy; inversion Hy; subst; repeat split; [right | left]; reflexivity.
+  - destruct values as [| v rest].
+    + cbn [outcome_ctx]. intros Hy; inversion Hy; subst. repeat split. left; reflexivity.
+    + unfold set_scalar_value.
+      destruct (Scalars.set_value vagg (x_scalars x) name _) as [[m b] | e]; cbn [lift outcome_ctx];
+        intros Hy; inversion Hy; subst; repeat split; [right | left]; reflexivity.
 Qed.
 
-Lemma canon_epilog_with_streams x m name values t c :
-  canon_epilog (with_streams x m) name values t c = xres_map (fun y => with_streams y m) (canon_epilog x name values t c).
+Lemma canon_epilog_with_tables k x ms mm values t c :
+  canon_epilog k (with_tables x ms mm) values t c = xres_map (fun y => with_tables y ms mm) (canon_epilog k x values t c).
 Proof.
-  unfold canon_epilog, set_canon_value. change (x_canons (with_streams x m)) with (x_canons x).
-  destruct (Scalars.set_value canon_wp (x_canons x) name _) as [[m0 b] | e]; reflexivity.
+  unfold canon_epilog. destruct k as [name | name | name].
+  - unfold set_canon_value. change (x_canons (with_tables x ms mm)) with (x_canons x).
+    destruct (Scalars.set_value canon_wp (x_canons x) name _) as [[m0 b] | e]; reflexivity.
+  - destruct (negb (kv_pairs_valid values)); [reflexivity |]. unfold set_canon_map_value.
+    change (e_canon_maps (x_ext (with_tables x ms mm))) with (e_canon_maps (x_ext x)).
+    destruct (Scalars.set_value canon_map_wp (e_canon_maps (x_ext x)) name _) as [[m0 b] | e]; reflexivity.
+  - destruct values as [| v rest]; [reflexivity |]. unfold set_scalar_value.
+    change (x_scalars (with_tables x ms mm)) with (x_scalars x).
+    change (trace_pos_of (with_tables x ms mm)) with (trace_pos_of x).
+    destruct (Scalars.set_value vagg (x_scalars x) name _) as [[m0 b] | e]; reflexivity.
 Qed.
 
-Lemma record_cid_with_streams x m peer c : record_cid (with_streams x m) peer c = with_streams (record_cid x peer c) m.
-Proof. unfold record_cid. change (current_peer (with_streams x m)) with (current_peer x). destruct (String.eqb peer (current_peer x)); reflexivity. Qed.
+Lemma record_cid_with_tables x ms mm peer c : record_cid (with_tables x ms mm) peer c = with_tables (record_cid x peer c) ms mm.
+Proof. unfold record_cid. change (current_peer (with_tables x ms mm)) with (current_peer x). destruct (String.eqb peer (current_peer x)); reflexivity. Qed.
 
-Lemma handle_canon_executed_with_streams x m p name c :
-  handle_canon_executed (with_streams x m) p name c =
-  xres_map (fun y => with_streams y m) (handle_canon_executed x p name c).
+(* record_cid only touches the tracker *)
+Lemma record_cid_fields x z c :
+  x_canons (record_cid x z c) = x_canons x /\ x_scalars (record_cid x z c) = x_scalars x /\
+  x_ext (record_cid x z c) = x_ext x /\ tr (record_cid x z c) = tr x /\ x_cids (record_cid x z c) = x_cids x /\
+  x_next_peers (record_cid x z c) = x_next_peers x /\
+  x_tracker (record_cid x z c) = (if String.eqb z (current_peer x) then x_tracker x ++ [c] else x_tracker x).
+Proof. unfold record_cid. destruct (String.eqb z (current_peer x)); repeat split. Qed.
+
+Lemma value_bound_transfer k x x' y values t c :
+  x_canons x' = x_canons x -> x_scalars x' = x_scalars x -> x_ext x' = x_ext x -> tr x' = tr x ->
+  value_bound k x' y values t c -> value_bound k x y values t c.
 Proof.
-  unfold handle_canon_executed. rewrite resolve_peer_with_streams.
+  intros E1 E2 E3 E4. destruct k; cbn [value_bound]; unfold canon_bound; rewrite ?E1, ?E2, ?E3, ?E4; auto.
+Qed.
+
+Lemma same_tables_transfer x x' y : x_ext x' = x_ext x -> same_tables x' y -> same_tables x y.
+Proof. unfold same_tables. intros E. rewrite E. auto. Qed.
+
+Lemma handle_canon_executed_with_tables k x ms mm p c :
+  handle_canon_executed k (with_tables x ms mm) p c =
+  xres_map (fun y => with_tables y ms mm) (handle_canon_executed k x p c).
+Proof.
+  unfold handle_canon_executed. rewrite resolve_peer_with_tables.
   destruct (resolve_peer_id_to_string x p) as [peer | e | s | w]; cbn [lift xres_map]; try reflexivity.
-  change (x_cids (with_streams x m)) with (x_cids x).
+  change (x_cids (with_tables x ms mm)) with (x_cids x).
   destruct (negb (cid_mem c (cs_canon_results (x_cids x)))); [reflexivity |].
   destruct c; try reflexivity.
   destruct (negb (cid_mem c (cs_tetraplets (x_cids x)))); [reflexivity |].
   destruct c; try reflexivity.
   destruct (verify_canon (canon_tetraplet peer) t); cbn [lift xres_map]; try reflexivity.
   destruct (canon_values_by_cids (x_cids x) values); cbn [lift xres_map]; try reflexivity.
-  rewrite record_cid_with_streams. apply canon_epilog_with_streams.
+  rewrite record_cid_with_tables. apply canon_epilog_with_tables.
 Qed.
 
 (* decoding: the store lookups succeed only with what the content id itself says *)
@@ -305,10 +352,10 @@ Proof.
   - split; [discriminate |]. intros H. apply tetraplet_eqb_eq in H. congruence.
 Qed.
 
-Lemma handle_canon_executed_ok x p name c y :
-  handle_canon_executed x p name c = XOk y ->
-  exists w, decode_canon_result c = Some w /\ canon_bound x y name w /\
-            tr y = tr x ++ [SCanon (CanonExecuted c)] /\ x_ext y = x_ext x.
+Lemma handle_canon_executed_ok k x p c y :
+  handle_canon_executed k x p c = XOk y ->
+  exists w, decode_canon_result c = Some w /\ value_bound k x y (cw_values w) (cw_tetraplet w) c /\
+            tr y = tr x ++ [SCanon (CanonExecuted c)] /\ same_tables x y.
 Proof.
   unfold handle_canon_executed.
   destruct (resolve_peer_id_to_string x p) as [peer | e | s | w]; cbn [lift]; try discriminate.
@@ -321,17 +368,14 @@ Proof.
   intros Hy. apply canon_epilog_ok in Hy. destruct Hy as (Hb & Ht & He & _).
   exists {| cw_values := values; cw_tetraplet := t; cw_cid := CCanonResult (CTetraplet t) vcs |}.
   cbn [decode_canon_result]. rewrite (canon_values_by_cids_decode _ _ _ Ev).
-  split; [reflexivity |].
-  assert (Hr : forall z, x_canons (record_cid x z (CCanonResult (CTetraplet t) vcs)) = x_canons x /\
-                         tr (record_cid x z (CCanonResult (CTetraplet t) vcs)) = tr x /\
-                         x_ext (record_cid x z (CCanonResult (CTetraplet t) vcs)) = x_ext x).
-  { intros z. unfold record_cid. destruct (String.eqb z (current_peer x)); repeat split. }
-  destruct (Hr (tp_peer t)) as (R1 & R2 & R3).
-  unfold canon_bound in *. rewrite R1 in Hb. rewrite R2 in Ht. rewrite R3 in He. repeat split; assumption.
+  split; [reflexivity |]. cbn [cw_values cw_tetraplet].
+  destruct (record_cid_fields x (tp_peer t) (CCanonResult (CTetraplet t) vcs)) as (R1 & R2 & R3 & R4 & _).
+  split; [apply (value_bound_transfer _ _ _ _ _ _ _ R1 R2 R3 R4 Hb) |].
+  split; [rewrite Ht, R4; reflexivity | apply (same_tables_transfer _ _ _ R3 He)].
 Qed.
 
-Lemma handle_canon_executed_cids x p name c y :
-  outcome_ctx (handle_canon_executed x p name c) = Some y ->
+Lemma handle_canon_executed_cids k x p c y :
+  outcome_ctx (handle_canon_executed k x p c) = Some y ->
   x_cids y = x_cids x /\ x_next_peers y = x_next_peers x /\ (tr y = tr x \/ tr y = tr x ++ [SCanon (CanonExecuted c)]).
 Proof.
   unfold handle_canon_executed.
@@ -346,27 +390,26 @@ Proof.
   destruct (verify_canon (canon_tetraplet peer) t); cbn [lift]; try discriminate; try apply Hx.
   destruct (canon_values_by_cids (x_cids x) vcs) as [values | | |]; cbn [lift]; try discriminate; try apply Hx.
   intros Hy. apply canon_epilog_ctx in Hy. destruct Hy as (_ & Hc & _ & Hn & Ht).
-  assert (Hr : forall z, x_cids (record_cid x z (CCanonResult (CTetraplet t) vcs)) = x_cids x /\
-                         tr (record_cid x z (CCanonResult (CTetraplet t) vcs)) = tr x /\
-                         x_next_peers (record_cid x z (CCanonResult (CTetraplet t) vcs)) = x_next_peers x).
-  { intros z. unfold record_cid. destruct (String.eqb z (current_peer x)); repeat split. }
-  destruct (Hr (tp_peer t)) as (R1 & R2 & R3). rewrite R1 in Hc. rewrite R2 in Ht. rewrite R3 in Hn.
-  repeat split; assumption.
+  destruct (record_cid_fields x (tp_peer t) (CCanonResult (CTetraplet t) vcs)) as (_ & _ & _ & R4 & R5 & R6 & _).
+  rewrite R5 in Hc. rewrite R4 in Ht. rewrite R6 in Hn. repeat split; assumption.
 Qed.
 
 Theorem C11_reuse : C11_reuse_stmt.
 Proof.
-  intros x p stream canon c [h Hm]. split; [| split].
-  - intros m stream'.
-    assert (Hm' : meet_canon_start cid cid_eqb (x_handler (with_streams x m)) = Ok (CanonMet cid (CanonExecuted c), h)) by exact Hm.
-    rewrite (exec_canon_unfold _ _ _ _ _ _ Hm'), (exec_canon_unfold _ _ _ _ _ _ Hm). cbv zeta.
-    change (set_handler (with_streams x m) h) with (with_streams (set_handler x h) m).
-    apply handle_canon_executed_with_streams.
-  - intros y. rewrite (exec_canon_unfold _ _ _ _ _ _ Hm). cbv zeta. intros Hy.
+  intros k tb x p stream c [h Hm]. split; [| split].
+  - intros ms mm tb' stream'.
+    assert (Hm' : meet_canon_start cid cid_eqb (x_handler (with_tables x ms mm)) = Ok (CanonMet cid (CanonExecuted c), h)) by exact Hm.
+    rewrite (exec_canon_unfold _ _ _ _ _ _ _ Hm'), (exec_canon_unfold _ _ _ _ _ _ _ Hm). cbv zeta.
+    change (set_handler (with_tables x ms mm) h) with (with_tables (set_handler x h) ms mm).
+    apply handle_canon_executed_with_tables.
+  - intros y. rewrite (exec_canon_unfold _ _ _ _ _ _ _ Hm). cbv zeta. intros Hy.
     apply handle_canon_executed_ok in Hy. destruct Hy as (w & Hd & Hb & Ht & He).
-    exists w. repeat split; try assumption.
-    unfold tr in *. cbn [x_handler set_handler] in Ht. rewrite Ht. f_equal. apply (meet_canon_start_result _ _ _ Hm).
-  - intros y. rewrite (exec_canon_unfold _ _ _ _ _ _ Hm). cbv zeta. intros Hy.
+    pose proof (meet_canon_start_result _ _ _ Hm) as Hres.
+    assert (T0 : tr (set_handler x h) = tr x) by (unfold tr; cbn [x_handler set_handler]; exact Hres).
+    exists w. split; [exact Hd |].
+    split; [apply (value_bound_transfer k x (set_handler x h) y _ _ _ eq_refl eq_refl eq_refl T0 Hb) |].
+    split; [rewrite Ht, T0; reflexivity | exact He].
+  - intros y. rewrite (exec_canon_unfold _ _ _ _ _ _ _ Hm). cbv zeta. intros Hy.
     apply handle_canon_executed_cids in Hy. apply Hy.
 Qed.
 
@@ -387,66 +430,50 @@ Lemma decode_first_cid peer vs :
   Some {| cw_values := map forget_pos vs; cw_tetraplet := canon_tetraplet peer; cw_cid := first_cid peer vs |}.
 Proof. unfold first_cid. cbn [decode_canon_result]. rewrite decode_canon_elems_of. reflexivity. Qed.
 
-Lemma track_canon_values_results cs vs : cs_canon_results (track_canon_values cs vs) = cs_canon_results cs.
-Proof.
-  unfold track_canon_values. revert cs. induction vs as [| v r IH]; intros cs; [reflexivity |].
-  cbn [fold_left]. rewrite IH. reflexivity.
-Qed.
-
 (* create_canon_stream_for_first_time *)
-Lemma create_canon_first_time_ok x stream name peer y :
-  create_canon_first_time x stream name peer = XOk y ->
-  canon_bound x y name {| cw_values := known_values x stream; cw_tetraplet := canon_tetraplet peer;
-                          cw_cid := first_cid peer (known_values x stream) |} /\
-  tr y = tr x ++ [SCanon (CanonExecuted (first_cid peer (known_values x stream)))] /\
-  cid_mem (first_cid peer (known_values x stream)) (cs_canon_results (x_cids y)) = true /\
-  x_tracker y = (if String.eqb peer (current_peer x) then x_tracker x ++ [first_cid peer (known_values x stream)] else x_tracker x) /\
-  x_ext y = x_ext x /\ x_next_peers y = x_next_peers x.
+Lemma create_canon_first_time_ok k tb x stream peer y :
+  create_canon_first_time k tb x stream peer = XOk y ->
+  value_bound k x y (canon_producer k tb x stream peer) (canon_tetraplet peer)
+              (first_cid peer (canon_producer k tb x stream peer)) /\
+  tr y = tr x ++ [SCanon (CanonExecuted (first_cid peer (canon_producer k tb x stream peer)))] /\
+  cid_mem (first_cid peer (canon_producer k tb x stream peer)) (cs_canon_results (x_cids y)) = true /\
+  x_tracker y = (if String.eqb peer (current_peer x) then x_tracker x ++ [first_cid peer (canon_producer k tb x stream peer)] else x_tracker x) /\
+  same_tables x y /\ x_next_peers y = x_next_peers x.
 Proof.
-  unfold create_canon_first_time. fold (known_values x stream). fold (first_cid peer (known_values x stream)).
-  set (values := known_values x stream). set (c := first_cid peer values).
+  unfold create_canon_first_time. fold (first_cid peer (canon_producer k tb x stream peer)).
+  set (values := canon_producer k tb x stream peer). set (c := first_cid peer values).
   intros Hy. apply canon_epilog_ok in Hy. destruct Hy as (Hb & Ht & He & Hc & Hk & Hn).
   set (cs2 := {| cs_values := _; cs_tetraplets := _; cs_canon_elems := _; cs_canon_results := _; cs_services := _ |}) in *.
-  assert (Hr : x_canons (record_cid (set_cids x cs2 (x_tracker x)) peer c) = x_canons x /\
-               tr (record_cid (set_cids x cs2 (x_tracker x)) peer c) = tr x /\
-               x_ext (record_cid (set_cids x cs2 (x_tracker x)) peer c) = x_ext x /\
-               x_cids (record_cid (set_cids x cs2 (x_tracker x)) peer c) = cs2 /\
-               x_next_peers (record_cid (set_cids x cs2 (x_tracker x)) peer c) = x_next_peers x /\
-               x_tracker (record_cid (set_cids x cs2 (x_tracker x)) peer c) =
-                 (if String.eqb peer (current_peer x) then x_tracker x ++ [c] else x_tracker x)).
-  { unfold record_cid. change (current_peer (set_cids x cs2 (x_tracker x))) with (current_peer x).
-    destruct (String.eqb peer (current_peer x)); repeat split. }
-  destruct Hr as (R1 & R2 & R3 & R4 & R5 & R6).
-  unfold canon_bound in *. rewrite R1 in Hb. rewrite R2 in Ht. rewrite R3 in He. rewrite R4 in Hc. rewrite R5 in Hn. rewrite R6 in Hk.
-  repeat split; try assumption.
-  rewrite Hc. unfold cs2. cbn [cs_canon_results]. apply cid_track_mem.
+  destruct (record_cid_fields (set_cids x cs2 (x_tracker x)) peer c) as (R1 & R2 & R3 & R4 & R5 & R6 & R7).
+  change (current_peer (set_cids x cs2 (x_tracker x))) with (current_peer x) in R7.
+  split; [apply (value_bound_transfer k x _ y _ _ _ R1 R2 R3 R4 Hb) |].
+  split; [rewrite Ht, R4; reflexivity |].
+  split; [rewrite Hc, R5; unfold cs2; cbn [x_cids set_cids cs_canon_results]; apply cid_track_mem |].
+  split; [rewrite Hk, R7; reflexivity |].
+  split; [apply (same_tables_transfer x _ y R3 He) | rewrite Hn, R6; reflexivity].
 Qed.
 
 Theorem C11_first : C11_first_stmt.
 Proof.
-  intros x p stream canon r y [h Hm] Hne Hp Hy values c.
-  rewrite (exec_canon_unfold _ _ _ _ _ _ Hm) in Hy. cbv zeta in Hy.
+  intros k tb x p stream r y [h Hm] Hne Hp Hy values c.
+  rewrite (exec_canon_unfold _ _ _ _ _ _ _ Hm) in Hy. cbv zeta in Hy.
   rewrite resolve_peer_set_handler, Hp in Hy. change (current_peer (set_handler x h)) with (current_peer x) in Hy.
-  assert (Hc : create_canon_first_time (set_handler x h) stream (v_name canon) (current_peer x) = XOk y).
+  assert (Hc : create_canon_first_time k tb (set_handler x h) stream (current_peer x) = XOk y).
   { destruct r as [| [s | c0]]; [| | destruct Hne]; cbn [lift] in Hy; rewrite String.eqb_refl in Hy; exact Hy. }
   clear Hy. apply create_canon_first_time_ok in Hc.
-  change (known_values (set_handler x h) stream) with values in Hc. fold c in Hc.
+  change (canon_producer k tb (set_handler x h) stream (current_peer x)) with values in Hc. fold c in Hc.
   change (current_peer (set_handler x h)) with (current_peer x) in Hc. rewrite String.eqb_refl in Hc.
   destruct Hc as (Hb & Ht & Hmem & Hk & He & _).
-  repeat split; try assumption.
-  - unfold tr in *. cbn [x_handler set_handler] in Ht. rewrite Ht. f_equal. apply (meet_canon_start_result _ _ _ Hm).
-  - apply decode_first_cid.
+  pose proof (meet_canon_start_result _ _ _ Hm) as Hres.
+  assert (T0 : tr (set_handler x h) = tr x) by (unfold tr; cbn [x_handler set_handler]; exact Hres).
+  split; [destruct k; reflexivity || exact I |].
+  split; [rewrite Ht, T0; reflexivity |].
+  split; [apply (value_bound_transfer k x (set_handler x h) y _ _ _ eq_refl eq_refl eq_refl T0 Hb) |].
+  split; [exact Hmem |]. split; [exact Hk |]. split; [exact He | apply decode_first_cid].
 Qed.
 
 (* ------------------------------------------------------------------------------------------ *)
 (* only at the designated peer *)
-
-Lemma create_canon_first_time_ctx x stream name peer y :
-  outcome_ctx (create_canon_first_time x stream name peer) = Some y -> x_next_peers y = x_next_peers x.
-Proof.
-  unfold create_canon_first_time. intros Hy. apply canon_epilog_ctx in Hy. destruct Hy as (_ & _ & _ & Hn & _).
-  rewrite Hn. unfold record_cid. match goal with |- context [if ?b then _ else _] => destruct b end; reflexivity.
-Qed.
 
 Lemma canon_met_inj x r r' : canon_met x r -> canon_met x r' -> r = r'.
 Proof. intros [h H] [h' H']. rewrite H in H'. inversion H'. reflexivity. Qed.
@@ -454,37 +481,33 @@ Proof. intros [h H] [h' H']. rewrite H in H'. inversion H'. reflexivity. Qed.
 Lemma app_one_neq {A} (l : list A) a : l ++ [a] <> l.
 Proof. intros H. apply (f_equal (@length _)) in H. rewrite app_length in H. cbn in H. lia. Qed.
 
-Lemma create_canon_first_time_full x stream name peer y :
-  outcome_ctx (create_canon_first_time x stream name peer) = Some y ->
+Lemma create_canon_first_time_full k tb x stream peer y :
+  outcome_ctx (create_canon_first_time k tb x stream peer) = Some y ->
   x_next_peers y = x_next_peers x /\
-  (tr y = tr x \/ tr y = tr x ++ [SCanon (CanonExecuted (first_cid peer (known_values x stream)))]).
+  (tr y = tr x \/ tr y = tr x ++ [SCanon (CanonExecuted (first_cid peer (canon_producer k tb x stream peer)))]).
 Proof.
-  unfold create_canon_first_time. fold (known_values x stream). fold (first_cid peer (known_values x stream)).
+  unfold create_canon_first_time. fold (first_cid peer (canon_producer k tb x stream peer)).
   intros Hy. apply canon_epilog_ctx in Hy. destruct Hy as (_ & _ & _ & Hn & Ht).
-  unfold record_cid in *. destruct (String.eqb peer _); split; assumption.
+  match type of Hn with x_next_peers y = x_next_peers (record_cid ?z ?q ?c) =>
+    destruct (record_cid_fields z q c) as (_ & _ & _ & R4 & _ & R6 & _) end.
+  rewrite R6 in Hn. rewrite R4 in Ht. split; assumption.
 Qed.
 
 Theorem C11_only_designated : C11_only_designated_stmt.
 Proof.
-  intros x p stream canon y Hy.
+  intros k tb x p stream y Hy.
   destruct (meet_canon_start cid cid_eqb (x_handler x)) as [[r h] | e | s] eqn:Hm.
-  2: { unfold exec_canon in Hy. rewrite Hm in Hy. cbn [with_handler outcome_ctx] in Hy. inversion Hy; subst.
+  2: { unfold exec_canon_generic in Hy. rewrite Hm in Hy. cbn [with_handler outcome_ctx] in Hy. inversion Hy; subst.
        split; [| split].
        - intros [H | (c & Ht & _)]; [contradiction H; reflexivity | exfalso; symmetry in Ht; apply (app_one_neq _ _ Ht)].
        - intros r peer [h Hr]. rewrite Hm in Hr. discriminate.
        - reflexivity. }
-  2: { unfold exec_canon in Hy. rewrite Hm in Hy. discriminate. }
+  2: { unfold exec_canon_generic in Hy. rewrite Hm in Hy. discriminate. }
   assert (Hmet : canon_met x r) by (exists h; exact Hm).
   pose proof (meet_canon_start_result _ _ _ Hm) as Hres.
-  rewrite (exec_canon_unfold _ _ _ _ _ _ Hm) in Hy. cbv zeta in Hy.
+  rewrite (exec_canon_unfold _ _ _ _ _ _ _ Hm) in Hy. cbv zeta in Hy.
   rewrite resolve_peer_set_handler in Hy. change (current_peer (set_handler x h)) with (current_peer x) in Hy.
   assert (T0 : tr (set_handler x h) = tr x) by (unfold tr; cbn [x_handler set_handler]; exact Hres).
-  (* the three things the instruction can do *)
-  assert (Hfirst : forall peer,
-            outcome_ctx (create_canon_first_time (set_handler x h) stream (v_name canon) peer) = Some y ->
-            x_next_peers y = x_next_peers x /\
-            (tr y = tr x \/ tr y = tr x ++ [SCanon (CanonExecuted (first_cid peer (known_values x stream)))])).
-  { intros peer H. apply create_canon_first_time_full in H. rewrite T0 in H. exact H. }
   split; [| split].
   - (* a change happens only at the designated peer *)
     intros Hch.
@@ -538,12 +561,12 @@ Qed.
 (* ------------------------------------------------------------------------------------------ *)
 (* uniqueness *)
 
-Lemma verify_canon_rejects x p name t vcs peer :
+Lemma verify_canon_rejects k x p t vcs peer :
   resolve_peer_id_to_string x p = POk peer ->
   t <> canon_tetraplet peer ->
   cid_mem (CCanonResult (CTetraplet t) vcs) (cs_canon_results (x_cids x)) = true ->
   cid_mem (CTetraplet t) (cs_tetraplets (x_cids x)) = true ->
-  handle_canon_executed x p name (CCanonResult (CTetraplet t) vcs) =
+  handle_canon_executed k x p (CCanonResult (CTetraplet t) vcs) =
     XErr (EUncatch (UInstructionParametersMismatch "canon tetraplet")) x.
 Proof.
   intros Ep Hne M1 M2. unfold handle_canon_executed. rewrite Ep. cbn [lift]. rewrite M1, M2. cbn [negb].
@@ -603,16 +626,15 @@ Definition carries (cs : cid_state) (peer : string) (values : list vagg) : Prop 
     cid_mem (CTetraplet (va_tetraplet v)) (cs_tetraplets cs) = true /\
     cid_mem (canon_elem_cid v) (cs_canon_elems cs) = true.
 
-Lemma create_canon_first_time_carries x stream name peer y :
-  create_canon_first_time x stream name peer = XOk y -> carries (x_cids y) peer (known_values x stream).
+Lemma create_canon_first_time_carries k tb x stream peer y :
+  create_canon_first_time k tb x stream peer = XOk y -> carries (x_cids y) peer (canon_producer k tb x stream peer).
 Proof.
-  unfold create_canon_first_time. fold (known_values x stream). fold (first_cid peer (known_values x stream)).
-  set (values := known_values x stream). set (c := first_cid peer values).
+  unfold create_canon_first_time. fold (first_cid peer (canon_producer k tb x stream peer)).
+  set (values := canon_producer k tb x stream peer). set (c := first_cid peer values).
   intros Hy. apply canon_epilog_ok in Hy. destruct Hy as (_ & _ & _ & Hc & _).
   set (cs2 := {| cs_values := _; cs_tetraplets := _; cs_canon_elems := _; cs_canon_results := _; cs_services := _ |}) in *.
-  assert (R : x_cids (record_cid (set_cids x cs2 (x_tracker x)) peer c) = cs2).
-  { unfold record_cid. destruct (String.eqb peer _); reflexivity. }
-  rewrite R in Hc. rewrite Hc. clear Hc R.
+  destruct (record_cid_fields (set_cids x cs2 (x_tracker x)) peer c) as (_ & _ & _ & _ & R5 & _).
+  rewrite R5 in Hc. cbn [x_cids set_cids] in Hc. rewrite Hc. clear Hc R5.
   destruct (track_canon_values_spec values (x_cids x)) as (_ & _ & _ & I4).
   unfold carries, cs2. cbn [cs_canon_results cs_tetraplets cs_values cs_canon_elems].
   split; [apply cid_track_mem |]. split; [apply cid_track_mem |].
@@ -646,16 +668,17 @@ Qed.
 
 Theorem C11_two_runs : C11_two_runs_stmt.
 Proof.
-  intros x1 p1 stream1 canon1 r1 y1 [h1 Hm1] Hne Hp1 Hy1 values c x2 p2 stream2 canon2 h2 Hm2 Hinc Hp2.
+  intros k1 tb1 x1 p1 stream1 r1 y1 [h1 Hm1] Hne Hp1 Hy1 values c k2 tb2 x2 p2 stream2 h2 Hm2 Hinc Hp2.
   (* the first run went through create_canon_first_time *)
-  rewrite (exec_canon_unfold _ _ _ _ _ _ Hm1) in Hy1. cbv zeta in Hy1.
+  rewrite (exec_canon_unfold _ _ _ _ _ _ _ Hm1) in Hy1. cbv zeta in Hy1.
   rewrite resolve_peer_set_handler, Hp1 in Hy1. change (current_peer (set_handler x1 h1)) with (current_peer x1) in Hy1.
-  assert (Hc : create_canon_first_time (set_handler x1 h1) stream1 (v_name canon1) (current_peer x1) = XOk y1).
+  assert (Hc : create_canon_first_time k1 tb1 (set_handler x1 h1) stream1 (current_peer x1) = XOk y1).
   { destruct r1 as [| [s | c0]]; [| | destruct Hne]; cbn [lift] in Hy1; rewrite String.eqb_refl in Hy1; exact Hy1. }
-  apply create_canon_first_time_carries in Hc. change (known_values (set_handler x1 h1) stream1) with values in Hc.
+  apply create_canon_first_time_carries in Hc.
+  change (canon_producer k1 tb1 (set_handler x1 h1) stream1 (current_peer x1)) with values in Hc.
   pose proof (carries_include _ _ _ _ Hinc Hc) as (C1 & C2 & C3).
   (* the second run *)
-  rewrite (exec_canon_unfold _ _ _ _ _ _ Hm2). cbv zeta.
+  rewrite (exec_canon_unfold _ _ _ _ _ _ _ Hm2). cbv zeta.
   unfold handle_canon_executed. rewrite resolve_peer_set_handler, Hp2. cbn [lift].
   change (x_cids (set_handler x2 h2)) with (x_cids x2).
   fold c in C1. rewrite C1. cbn [negb]. unfold c at 1. unfold first_cid at 1. rewrite C2. cbn [negb].
